@@ -21,7 +21,8 @@ const (
 	xmlNS  = "http://www.w3.org/XML/1998/namespace"
 )
 
-// Every namespace name contains ':' (soundness guard S of DESIGN.md C15).
+// Every namespace name of the pool contains ':'; spellLikePrefixes makes the
+// exception (namespace names that collide with prefixes).
 var nsPool = []string{davNS, calNS, cardNS, "urn:a", "urn:b", "http://example.com/ns/",
 	"http://example.com/ns/xml", "http://example.com/a/b", "urn:x:_", "http://example.com/ns/xmlns",
 	"http://example.com/ns/p"}
@@ -181,6 +182,42 @@ func (g *treeGen) element(depth int, parentNS string) *xmltree.Node {
 func genTree(r *rand.Rand) *xmltree.Node {
 	g := newTreeGen(r)
 	return g.element(1, "")
+}
+
+// spellLikePrefixes renames the namespaces of t to names taken from the
+// serialiser's prefix pool ("p", "q", "D", ...): namespace names are then
+// spelled like prefixes the document declares, often for another namespace.
+func spellLikePrefixes(r *rand.Rand, t *xmltree.Node) {
+	names := append([]string(nil), declPrefixPool...)
+	r.Shuffle(len(names), func(i, j int) { names[i], names[j] = names[j], names[i] })
+	m := map[string]string{}
+	ren := func(space string) string {
+		if space == "" || space == xmlNS {
+			return space
+		}
+		if v, ok := m[space]; ok {
+			return v
+		}
+		if len(m) >= len(names) {
+			return space
+		}
+		m[space] = names[len(m)]
+		return m[space]
+	}
+	var walk func(n *xmltree.Node)
+	walk = func(n *xmltree.Node) {
+		if n.Kind != xmltree.Element {
+			return
+		}
+		n.Space = ren(n.Space)
+		for i := range n.Attrs {
+			n.Attrs[i].Space = ren(n.Attrs[i].Space)
+		}
+		for _, ch := range n.Children {
+			walk(ch)
+		}
+	}
+	walk(t)
 }
 
 // ---------------------------------------------------------------------------
